@@ -145,7 +145,7 @@ def oleq_cases(args):
         mag = np.array(c["meas"][1], dtype=float) * (48.0 / (c["N"] * np.linalg.norm(m_ref)))
         R = OM.iteration_matrix(c)
         truth = core.g_unit(u)
-        for route in ("estimate", "Q[1-D]", "Q[2 rows]", "estimate twice on one object"):
+        for route in ("estimate", "Q[1-D]", "Q[2 rows]", "estimate twice on one object", "Q[1-D, frame in lower case]"):
             t.calls += 1
             t.keys.add(("oleq-as-built", u, tuple(map(tuple, c["refs"])), tuple(c["weights"]), route))
             np.random.seed(4711)
@@ -155,6 +155,9 @@ def oleq_cases(args):
             if route == "estimate":
                 o = core.outcome(lambda: [OLEQ(**kw).estimate(acc.copy(), mag.copy())])
             elif route == "Q[1-D]":
+                o = core.outcome(lambda: [OLEQ(acc.copy(), mag.copy(), **kw).Q])
+            elif route == "Q[1-D, frame in lower case]":
+                kw["frame"] = frame.lower()
                 o = core.outcome(lambda: [OLEQ(acc.copy(), mag.copy(), **kw).Q])
             elif route == "Q[2 rows]":
                 o = core.outcome(lambda: list(OLEQ(np.array([acc, acc]), np.array([mag, mag]), **kw).Q))
